@@ -132,6 +132,8 @@ func main() {
 		out = extractDecoders(pkgs)
 	case "effects":
 		out = extractEffects(pkgs)
+	case "unwrap":
+		out = extractUnwrap(pkgs)
 	default:
 		fmt.Fprintln(os.Stderr, "unknown extractor")
 		os.Exit(2)
